@@ -266,8 +266,19 @@ func zz2ConcRebuild(ops []int) {
 			return w.bc.Rebuild(ctx)
 		}
 		var prepare, rearm func()
-		if op == zz2Delete {
+		seenAfterPut := true
+		switch op {
+		case zz2Delete:
 			prepare = func() { zz2Do(w.top, w.pool, zz2Put, c, w.focus, 0, false) }
+		case zz2Put, zz2PutMany01:
+			// from the second round on the blocks are deleted first, so that every round really writes
+			prepare = func() {
+				for i, e := range w.pool {
+					if op == zz2PutMany01 || i == w.focus {
+						zz2Do(w.top, w.pool, zz2Delete, e.cid(0), 0, 0, false)
+					}
+				}
+			}
 		}
 		if complete != wasActive {
 			rearm = func() {
@@ -284,8 +295,13 @@ func zz2ConcRebuild(ops []int) {
 				w.back.mu.Lock()
 				stateOK = zz2SameState(w.back, twin)
 				w.back.mu.Unlock()
+				if op != zz2Delete && got.errk == 0 {
+					// the put has returned and nobody deletes: the block must be visible from now on
+					h := zz2Do(w.top, w.pool, zz2Has, c, w.focus, 0, false)
+					seenAfterPut = h.errk == 0 && h.has
+				}
 			}
-			return stateOK && zz2Same(got, want)
+			return stateOK && seenAfterPut && zz2Same(got, want)
 		}, func() {
 			if verifrt.Symbolic() {
 				rerr = w.bc.Rebuild(ctx0) // context prepared outside: no extra scheduling points
@@ -294,6 +310,7 @@ func zz2ConcRebuild(ops []int) {
 			}
 		}, rearm)
 		verifrt.Assert("C02.conc-rebuild-store-state-equals-uncached-store", stateOK)
+		verifrt.Assert("C02.conc-rebuild-then-stored-block-not-reported-missing", seenAfterPut)
 
 		if want.errk == 0 && op == zz2Has && want.has {
 			verifrt.Assert("C02.conc-rebuild-stored-block-not-reported-missing", got.errk == 0 && got.has)
